@@ -254,3 +254,71 @@ fn c12_frag_parse_start() {
 	kani::cover!(true, "reached");
 	forget(res);
 }
+
+// @verif property=C08,C12:thorough tier=quick mem=16 timeout=2400
+// @encodes peppi::io::slippi::de::parse_event + handle_splitter_event: an unknown event between the two chunks of a split Gecko-code message
+// @symbolic 8300 both 512-byte chunks, their size fields, the unknown event's payload
+// @bound two splitter blocks (first not final, second final, wrapped code 0x3D) with one unknown 8-byte event in between; port-free 3.16 state
+// @assume chunk size fields <= 512
+// @stub alloc::fmt::format = returns an empty String
+// @stub std::hash::RandomState::new = fixed keys
+// @cbmc --max-field-sensitivity-array-size 1100
+#[kani::proof]
+#[kani::unwind(10)]
+#[kani::stub(alloc::fmt::format, format_stub)]
+#[kani::stub(std::hash::RandomState::new, random_state_stub)]
+fn c08_unknown_between_splitter_chunks() {
+	let v = Version(3, 16, 0);
+	let mut t = table_for(v);
+	t[0x3D] = NonZeroU16::new(600);
+	let frames = peppi::frame::mutable::Frame::with_capacity(0, v, &[]);
+	let mut state = ParseState::verif_from_parts(t, 0, mk_start(v), frames, [0; 4]);
+	let mut c1: [u8; 517] = kani::any();
+	c1[0] = 0x10;
+	let a1 = u16::from_be_bytes([c1[513], c1[514]]);
+	kani::assume(a1 <= 512);
+	c1[515] = 0x3D;
+	c1[516] = 0;
+	let r1 = parse_event(&c1[..], &mut state, None);
+	match &r1 {
+		Ok(c) => assert!(*c == 0x10),
+		Err(_) => assert!(false),
+	}
+	// unknown event in between
+	let mut u: [u8; 9] = kani::any();
+	u[0] = UNKNOWN_B;
+	let ru = parse_event(&u[..], &mut state, None);
+	match &ru {
+		Ok(c) => assert!(*c == UNKNOWN_B),
+		Err(_) => assert!(false),
+	}
+	let mut c2: [u8; 517] = kani::any();
+	c2[0] = 0x10;
+	let a2 = u16::from_be_bytes([c2[513], c2[514]]);
+	kani::assume(a2 <= 512);
+	c2[515] = 0x3D;
+	c2[516] = 1;
+	let r2 = parse_event(&c2[..], &mut state, None);
+	match &r2 {
+		Ok(c) => assert!(*c == 0x3D),
+		Err(_) => assert!(false),
+	}
+	assert!(state.bytes_read() == 517 + 9 + 517);
+	// the reassembled message is what it would be without the unknown event
+	match state.gecko_codes() {
+		Some(g) => {
+			assert!(g.actual_size == a1 as u32 + a2 as u32);
+			assert!(g.bytes.len() == 1024);
+			let i: usize = kani::any();
+			kani::assume(i < 512);
+			assert!(g.bytes[i] == c1[1 + i]);
+			assert!(g.bytes[512 + i] == c2[1 + i]);
+		}
+		None => assert!(false),
+	}
+	kani::cover!(a1 == 512 && a2 == 88, "full first chunk");
+	forget(r1);
+	forget(ru);
+	forget(r2);
+	forget(state);
+}
